@@ -658,6 +658,87 @@ func cmdConcX(args []string) error {
 			emit(map[string]interface{}{"k": "cx", "scenario": "mcp-writers", "strangeContentSeen": strange, "writersFailed": failed, "firstError": firstErr, "finalKnown": known[string(final)], "tempLeftovers": leftovers})
 		}
 
+		// ---- (13) stale lease operations racing with a re-lease: whoever is handed a lease during the volley and does not settle it
+		// still holds it at the end. Variant "expired": the first leases have run out (not yet swept) and their holders send a late
+		// batch nack / ack while other workers dequeue. Variant "duplicate": every holder sends the same nack twice while a
+		// worker polls.
+		for _, variant := range []string{"expired", "duplicate"} {
+			clock := &fakeClock{now: 1_700_000_000_000_000_000}
+			name := fmt.Sprintf("cx-s-%d-%s.db", round, variant)
+			st, done := newStore(backend, name, func() (queue.Store, error) {
+				if backend == "memory" {
+					return queue.NewMemoryStore(queue.WithNowFunc(clock.Now)), nil
+				}
+				return queue.NewSQLiteStore(filepath.Join(dir, name), queue.WithSQLiteNowFunc(clock.Now))
+			})
+			if st == nil {
+				continue
+			}
+			n := 16
+			for i := 0; i < n; i++ {
+				_ = st.Enqueue(queue.Envelope{ID: fmt.Sprintf("so-%d", i), Route: "/p", Target: "pull", Payload: []byte("x")})
+			}
+			first, err := st.Dequeue(queue.DequeueRequest{Route: "/p", Target: "pull", Batch: n, LeaseTTL: time.Second})
+			if err != nil || len(first.Items) != n {
+				done()
+				continue
+			}
+			if variant == "expired" {
+				clock.now += int64(2 * time.Second)
+			}
+			lb, _ := st.(queue.LeaseBatchStore)
+			type grant struct{ id, lease string }
+			var grants []grant
+			var mu sync.Mutex
+			fire(3*n, func(g int) {
+				i := g / 3
+				l1 := first.Items[i].LeaseID
+				switch {
+				case g%3 == 2: // another worker asks for work
+					resp, err := st.Dequeue(queue.DequeueRequest{Route: "/p", Target: "pull", Batch: 1, LeaseTTL: time.Hour})
+					if err == nil {
+						mu.Lock()
+						for _, it := range resp.Items {
+							grants = append(grants, grant{it.ID, it.LeaseID})
+						}
+						mu.Unlock()
+					}
+				case variant == "expired" && lb != nil:
+					if g%3 == 0 {
+						_, _ = lb.NackBatch([]string{l1}, 0)
+					} else {
+						_, _ = lb.AckBatch([]string{l1})
+					}
+				default:
+					_ = st.Nack(l1, 0)
+				}
+			})
+			var snap []queue.Envelope
+			switch s := st.(type) {
+			case *queue.MemoryStore:
+				snap = s.VerifSnapshot()
+			case *queue.SQLiteStore:
+				snap, _ = s.VerifSnapshot()
+			}
+			held := map[string]string{}
+			for _, e := range snap {
+				if e.State == queue.StateLeased {
+					held[e.ID] = e.LeaseID
+				}
+			}
+			// a message may have been granted more than once legitimately only if an earlier grant was wiped — which is the defect
+			lost := 0
+			seen := map[string]bool{}
+			for _, gr := range grants {
+				if seen[gr.id] || held[gr.id] != gr.lease {
+					lost++
+				}
+				seen[gr.id] = true
+			}
+			emit(map[string]interface{}{"k": "cx", "scenario": "stale-op-vs-release", "variant": variant, "backend": backend, "messages": n, "grants": len(grants), "grantsLostOrDoubled": lost})
+			done()
+		}
+
 		// ---- (9) a reload that raises the tolerance is held up while loading a later route's secret (a FIFO that nobody
 		// writes yet); a signed request is served meanwhile; then the reload completes. The request's replay after the OLD
 		// window is still inside the new one and must be refused.
